@@ -56,12 +56,15 @@ type stream struct {
 
 // Relay is the shared relay state.
 type Relay struct {
-	mu      sync.Mutex
-	start   time.Time
-	streams map[string]*stream
-	wake    chan struct{}
-	armed   bool
-	down    bool // every operation fails (relay unreachable)
+	mu        sync.Mutex
+	start     time.Time
+	streams   map[string]*stream
+	wake      chan struct{}
+	armed     bool
+	down      bool // every operation fails (relay unreachable)
+	blackhole bool // messages are accepted and dropped
+	// failDeletes: number of DelCipherBox calls that still fail
+	failDeletes int
 
 	// Msgs is every CipherBox payload the relay ever saw, per stream id.
 	Msgs   map[string][][]byte
@@ -145,6 +148,21 @@ func (r *Relay) FailNext(id []byte, send bool, n int) {
 	}
 }
 
+// FailDeletes makes the next n DelCipherBox calls fail (transient error).
+func (r *Relay) FailDeletes(n int) {
+	r.mu.Lock()
+	defer r.mu.Unlock()
+	r.failDeletes += n
+}
+
+// SetBlackhole makes the relay accept and silently drop every message (true),
+// or deliver again (false). Streams stay up: the endpoints see silence.
+func (r *Relay) SetBlackhole(v bool) {
+	r.mu.Lock()
+	defer r.mu.Unlock()
+	r.blackhole = v
+}
+
 // SetDown makes every relay operation fail (true) or work again (false).
 func (r *Relay) SetDown(v bool) {
 	r.mu.Lock()
@@ -210,12 +228,25 @@ func (c *client) DelCipherBox(ctx context.Context, in *hashmailrpc.CipherBoxAuth
 	if r.down {
 		return nil, errDown
 	}
-	id := string(in.GetDesc().GetStreamId())
-	if s, ok := r.streams[id]; ok {
-		s.deleted = true
-		delete(r.streams, id)
-		r.signal()
+	if err := ctx.Err(); err != nil {
+		// a gRPC call on a cancelled context fails before it is sent
+		return nil, status.FromContextError(err).Err()
 	}
+	if r.failDeletes > 0 {
+		r.failDeletes--
+		r.event(Event{Op: "del_err", Stream: string(in.GetDesc().GetStreamId()), Who: c.who, Note: "injected"})
+		return nil, errDown
+	}
+	id := string(in.GetDesc().GetStreamId())
+	s, ok := r.streams[id]
+	if !ok {
+		// as the hashmail server does (TearDownStream: "stream not found")
+		r.event(Event{Op: "del_err", Stream: id, Who: c.who, Note: "not found"})
+		return nil, status.Error(codes.Unknown, "stream not found")
+	}
+	s.deleted = true
+	delete(r.streams, id)
+	r.signal()
 	r.event(Event{Op: "del", Stream: id, Who: c.who})
 	return &hashmailrpc.DelCipherBoxResp{}, nil
 }
@@ -299,6 +330,9 @@ func (s *sendStream) Send(box *hashmailrpc.CipherBox) error {
 	if r.armed && st.ord < len(st.script) {
 		d = st.script[st.ord]
 		st.ord++
+	}
+	if r.blackhole {
+		d = Decision{Kind: "drop"}
 	}
 	note := ""
 	switch d.Kind {
